@@ -142,6 +142,17 @@ inline void ill2(char const* trait, char const* tj, char const* uj)
     head2(trait, tj, uj);
     std::fputs(",\"ill\":true}\n", stdout);
 }
+// the same for transformation traits (the predicted result stays in the event)
+inline void ill_tr(char const* trait, char const* tj, char const* rj)
+{
+    head(trait, tj);
+    std::printf(",\"res\":%s,\"ill\":true}\n", rj);
+}
+inline void ill_tr2(char const* trait, char const* tj, char const* uj, char const* rj)
+{
+    head2(trait, tj, uj);
+    std::printf(",\"res\":%s,\"ill\":true}\n", rj);
+}
 
 // [meta.logical]: a type without a member `value` (must never be looked at behind the deciding element)
 struct poison { };
@@ -201,6 +212,30 @@ inline void ratiocmp(char const* op, long n1, long d1, long n2, long d2, bool a,
 inline void illr1(long n, long d)
 {
     std::printf("{\"op\":\"ratio\",\"trait\":\"ratio\",\"n\":%ld,\"d\":%ld,\"ill\":true}\n", n, d);
+}
+// near-overflow ratios: |v| as limbs base 2^15 (the format of spec/Wide.tla), least significant first, no leading zero limb
+inline void limbs15(long long v)
+{
+    auto u = v < 0 ? 0ULL - static_cast<unsigned long long>(v) : static_cast<unsigned long long>(v);
+    std::fputc('[', stdout);
+    for (bool first = true; u != 0; u >>= 15, first = false) { std::printf("%s%llu", first ? "" : ",", u & 0x7fff); }
+    std::fputc(']', stdout);
+}
+inline void big1(char const* aj, long long num, long long den)
+{
+    std::printf("{\"op\":\"ratio\",\"trait\":\"ratio\",\"a\":%s,\"neg\":%s,\"num\":", aj, num < 0 ? "true" : "false");
+    limbs15(num);
+    std::printf(",\"den\":%lld}\n", den);
+}
+inline void bigcmp(char const* op, char const* aj, char const* bj, bool a, bool b)
+{
+    std::printf("{\"op\":\"%s\",\"trait\":\"%s\",\"a\":%s,\"b\":%s,\"val\":%s,\"val_v\":%s}\n", op, op, aj, bj, a ? "true" : "false",
+        b ? "true" : "false");
+}
+inline void illbig(char const* op, char const* aj, char const* bj)
+{
+    if (bj) { std::printf("{\"op\":\"%s\",\"trait\":\"%s\",\"a\":%s,\"b\":%s,\"ill\":true}\n", op, op, aj, bj); }
+    else { std::printf("{\"op\":\"%s\",\"trait\":\"%s\",\"a\":%s,\"ill\":true}\n", op, op, aj); }
 }
 inline void illr(char const* op, long n1, long d1, long n2, long d2)
 {
